@@ -1004,3 +1004,252 @@ func isRetNilAtStart(b *ssa.BasicBlock, asg ssa.CallInstruction) bool {
 	}
 	return false
 }
+
+func init() {
+	register("ASG-2", "the data back ends store the given value at the given index / key / field of their own data", 6, ruleASG2)
+}
+
+// reflectChain walks a reflect.Value expression down its receiver chain (Index, Elem, FieldByName, Convert, ...)
+// and reports the roots it starts from and the addressing arguments met on the way.
+func reflectChain(v ssa.Value) (roots, keys []ssa.Value) {
+	seen := map[ssa.Value]bool{}
+	var walk func(v ssa.Value)
+	walk = func(v ssa.Value) {
+		v = unspill(v)
+		if v == nil || seen[v] {
+			return
+		}
+		seen[v] = true
+		switch x := v.(type) {
+		case *ssa.Phi:
+			for _, e := range x.Edges {
+				walk(e)
+			}
+			return
+		case *ssa.Extract:
+			walk(x.Tuple)
+			return
+		case *ssa.MakeInterface:
+			walk(x.X)
+			return
+		case *ssa.ChangeType:
+			walk(x.X)
+			return
+		case *ssa.Convert:
+			walk(x.X)
+			return
+		case *ssa.Call:
+			name := calleeName(x)
+			switch name {
+			case "(reflect.Value).Index", "(reflect.Value).FieldByName", "(reflect.Value).MapIndex", "(reflect.Value).Field":
+				if len(x.Call.Args) == 2 {
+					keys = append(keys, x.Call.Args[1])
+					walk(x.Call.Args[0])
+					return
+				}
+			case "(reflect.Value).Elem", "(reflect.Value).Addr", "(reflect.Value).Convert", "(reflect.Value).Interface":
+				walk(x.Call.Args[0])
+				return
+			case "reflect.ValueOf", "reflect.Indirect":
+				walk(x.Call.Args[0])
+				return
+			}
+			if strings.HasSuffix(name, "pkg.GetValueElem") || strings.HasSuffix(name, "GetValueElem") {
+				walk(x.Call.Args[0])
+				return
+			}
+		}
+		roots = append(roots, v)
+	}
+	walk(v)
+	return
+}
+
+// ASG-2: last step of an assignment. Variable.Assign (ASG-1) picks the back-end call; the back end must put the value it
+// was given at the place it was given.
+func ruleASG2(c *Ctx) {
+	p := c.P
+	type spec struct {
+		typ, method string
+		addrParam   int // index in Params (receiver = 0)
+		valParam    int
+		viaKeyArg   bool // addressed through SetMapIndex's key argument rather than through the target chain
+	}
+	specs := []spec{
+		{"GoValueNode", "SetArrayValueAt", 1, 2, false},
+		{"GoValueNode", "SetMapValueAt", 1, 2, true},
+		{"GoValueNode", "SetObjectValueByField", 1, 2, false},
+		{"JSONValueNode", "SetArrayValueAt", 1, 2, false},
+		{"JSONValueNode", "SetMapValueAt", 1, 2, true},
+		{"JSONValueNode", "SetObjectValueByField", 1, 2, true},
+	}
+	for _, sp := range specs {
+		m := p.Method("model", sp.typ, sp.method)
+		if m == nil || len(m.Params) < 3 {
+			c.AnchorLost("(*model." + sp.typ + ")." + sp.method)
+			continue
+		}
+		recv := ssa.Value(m.Params[0])
+		addr := ssa.Value(m.Params[sp.addrParam])
+		val := ssa.Value(m.Params[sp.valParam])
+		construct := sp.typ + "." + sp.method
+		isOwnData := func(v ssa.Value) bool {
+			f, base := fieldLoad(v)
+			return f != nil && base == recv
+		}
+		allRoots := func(vs []ssa.Value, pred func(ssa.Value) bool) bool {
+			if len(vs) == 0 {
+				return false
+			}
+			for _, v := range vs {
+				if !pred(v) {
+					return false
+				}
+			}
+			return true
+		}
+		isParam := func(prm ssa.Value) func(ssa.Value) bool {
+			return func(v ssa.Value) bool { return unspill(stripConv(v)) == prm }
+		}
+		nStores := 0
+		for _, ci := range callsIn(m) {
+			call, ok := ci.(*ssa.Call)
+			if !ok {
+				continue
+			}
+			name := calleeName(call)
+			var target, stored, key ssa.Value
+			switch {
+			case name == "(reflect.Value).Set" && len(call.Call.Args) == 2:
+				target, stored = call.Call.Args[0], call.Call.Args[1]
+			case name == "(reflect.Value).SetMapIndex" && len(call.Call.Args) == 3:
+				target, key, stored = call.Call.Args[0], call.Call.Args[1], call.Call.Args[2]
+			case strings.HasSuffix(name, "SetNumberValue") && len(call.Call.Args) == 2:
+				target, stored = call.Call.Args[0], call.Call.Args[1]
+			default:
+				if strings.HasPrefix(name, "(reflect.Value).Set") {
+					c.Undecided(construct+" / store "+name, p.InstrPos(call), "a reflect setter the rule does not model")
+				}
+				continue
+			}
+			nStores++
+			k := fmt.Sprintf("%s / %s", construct, name)
+			tRoots, tKeys := reflectChain(target)
+			sRoots, sKeys := reflectChain(stored)
+			okTarget := allRoots(tRoots, isOwnData)
+			okVal := allRoots(sRoots, isParam(val)) && len(sKeys) == 0
+			okAddr := false
+			if key != nil {
+				kRoots, kKeys := reflectChain(key)
+				okAddr = allRoots(kRoots, isParam(addr)) && len(kKeys) == 0 && len(tKeys) == 0
+			} else {
+				okAddr = len(tKeys) >= 1 && allRoots(tKeys, isParam(addr))
+			}
+			c.Check(okTarget, k+" writes the node's own data", p.InstrPos(call), "target is reached from the receiver's data field", "the store does not go into the data this node stands for (a copy or another value is written)")
+			c.Check(okAddr, k+" at the given index/key/field", p.InstrPos(call), "addressed by the parameter itself", "the element written is not addressed by exactly the index / key / field that was passed in")
+			c.Check(okVal, k+" stores the given value", p.InstrPos(call), "stored operand is the value parameter (unwrapped/converted at most)", "what is stored is not the value that was passed in")
+		}
+		if nStores == 0 {
+			c.Fail(construct+" / has a store", p.Pos(m.Pos()), "no reflect store found in the setter (anchor lost)")
+		}
+		if sp.typ == "JSONValueNode" {
+			isStore := func(in ssa.Instruction) bool {
+				ci, ok := in.(ssa.CallInstruction)
+				return ok && strings.HasPrefix(calleeName(ci), "(reflect.Value).Set")
+			}
+			t, path := reach(m, nil, func(in ssa.Instruction) bool {
+				ret, isRet := in.(*ssa.Return)
+				if !isRet || ret.Block().Comment == "recover" {
+					return false
+				}
+				return !returnsNonNilError(ret) && !returnsCallError(ret)
+			}, isStore, nil)
+			if t != nil {
+				c.Fail(construct+" / every successful return follows a store", p.InstrPos(t), "the setter can report success without storing anything", pathString(p, path)...)
+			} else {
+				c.OK(construct+" / every successful return follows a store", p.Pos(m.Pos()), "all nil-capable returns are preceded by a reflect store")
+			}
+		}
+	}
+}
+
+func init() {
+	register("ASG-3", "the data back ends read the element at the given index / key / field of their own data", 6, ruleASG3)
+}
+
+// ASG-3: mirror of ASG-2 for the read side (conditions and right-hand sides are evaluated through these getters).
+func ruleASG3(c *Ctx) {
+	p := c.P
+	for _, typ := range []string{"GoValueNode", "JSONValueNode"} {
+		for _, mn := range []string{"GetArrayValueAt", "GetMapValueAt", "GetObjectValueByField"} {
+			m := p.Method("model", typ, mn)
+			if m == nil || len(m.Params) < 2 {
+				c.AnchorLost("(*model." + typ + ")." + mn)
+				continue
+			}
+			recv := ssa.Value(m.Params[0])
+			addr := ssa.Value(m.Params[1])
+			construct := typ + "." + mn
+			n := 0
+			for _, ret := range returnsOf(m) {
+				if ret.Block().Comment == "recover" || returnsNonNilError(ret) {
+					continue
+				}
+				first, _ := returnOperandsThroughAllocs(ret)
+				if first == nil {
+					c.Undecided(construct+" / success return", p.InstrPos(ret), "cannot resolve the returned value")
+					continue
+				}
+				n++
+				roots, keys := reflectChain(first)
+				okRoot, nRoot := true, 0
+				for _, r := range roots {
+					if isZeroValue(r) {
+						continue // an invalid value: rejected by the IsValid test or by the consumer
+					}
+					nRoot++
+					if f, base := fieldLoad(r); f == nil || base != recv {
+						okRoot = false
+					}
+				}
+				okKey := len(keys) >= 1
+				for _, k := range keys {
+					k = unspill(stripConv(k))
+					if k == addr {
+						continue
+					}
+					// reflect.ValueOf(field)
+					if call, ok := k.(*ssa.Call); ok && calleeName(call) == "reflect.ValueOf" && len(call.Call.Args) == 1 {
+						if mi, ok := call.Call.Args[0].(*ssa.MakeInterface); ok && unspill(mi.X) == addr {
+							continue
+						}
+					}
+					okKey = false
+				}
+				k := fmt.Sprintf("%s / success return at %s", construct, shortRetLabel(p, ret))
+				c.Check(okRoot && nRoot >= 1 && okKey, k, p.InstrPos(ret), "returns own data addressed by the parameter", fmt.Sprintf("the value returned is not the element of this node's own data at exactly the index / key / field passed in (ownData=%v addressedByParam=%v)", okRoot && nRoot >= 1, okKey))
+			}
+			if n == 0 {
+				c.Fail(construct+" / has a success return", p.Pos(m.Pos()), "no success return found (anchor lost)")
+			}
+		}
+	}
+}
+
+func isZeroValue(v ssa.Value) bool {
+	if k, ok := v.(*ssa.Const); ok {
+		return k.Value == nil
+	}
+	if ld, ok := v.(*ssa.UnOp); ok && ld.Op == token.MUL {
+		v = ld.X
+	}
+	if al, ok := v.(*ssa.Alloc); ok {
+		for _, r := range *al.Referrers() {
+			if _, isStore := r.(*ssa.Store); isStore {
+				return false
+			}
+		}
+		return true
+	}
+	return false
+}
